@@ -1105,8 +1105,10 @@ class Function(Ring):
 
     def _inplace(self, res):
         # `v op= r` on arrays (and UTPM arrays) updates the storage of v, also when v is a view of a buffer:
-        # record it as the item assignment v[...] = v op r.  Scalars are rebound, as in Python.
-        if numpy.ndim(self.x) == 0:
+        # record it as the item assignment v[...] = v op r.  Scalars are rebound, as in Python -- but a
+        # 0-d work array allocated by zeros / ones is an array for every kind of operand.
+        if numpy.ndim(self.x) == 0 and not (getattr(self, 'func', None) in (algopy.zeros, algopy.ones)
+                                          and isinstance(self.x, (numpy.ndarray, algopy.UTPM))):
             return res
         self[Ellipsis] = res
         return self
